@@ -405,7 +405,40 @@ func (c *vnClient) SyncChain(ctx context.Context, p net.Peer, in *proto.SyncRequ
 	}
 	vn.mu.Lock()
 	hole := !ok && vn.blackhole && to != nil && vn.part != nil
+	forged := to != nil && to.corrupt && (vn.part == nil || vn.part[c.from.idx] == vn.part[to.idx])
 	vn.mu.Unlock()
+	if forged {
+		// a corrupted member answers the sync request with beacons that do not verify for their round:
+		// random signature bytes, a real beacon relabelled with another round, a foreign beacon id
+		vn.tr.Emit("SyncOpen", vlib.E{"node": c.from.idx, "peer": toIdx, "from": in.FromRound, "ok": true, "forged": true})
+		ch := make(chan *proto.BeaconPacket, 8)
+		go func() {
+			defer close(ch)
+			last, err := c.from.h.chain.Last(ctx)
+			if err != nil {
+				return
+			}
+			md := &proto.Metadata{BeaconID: "vnbeacon"}
+			junk := make([]byte, len(last.Signature))
+			for i := range junk {
+				junk[i] = byte(7*i + 3)
+			}
+			prev := last.Signature
+			if !vn.chained {
+				prev = nil
+			}
+			kind := int(in.FromRound+uint64(to.idx)) % 3
+			switch kind {
+			case 0: // garbage signature for the requested round
+				ch <- &proto.BeaconPacket{Round: in.FromRound, PreviousSignature: prev, Signature: junk, Metadata: md}
+			case 1: // the victim's own last beacon relabelled as the next round
+				ch <- &proto.BeaconPacket{Round: in.FromRound, PreviousSignature: prev, Signature: last.Signature, Metadata: md}
+			default: // right shape, foreign beacon id
+				ch <- &proto.BeaconPacket{Round: in.FromRound, PreviousSignature: prev, Signature: junk, Metadata: &proto.Metadata{BeaconID: "other"}}
+			}
+		}()
+		return ch, nil
+	}
 	vn.tr.Emit("SyncOpen", vlib.E{"node": c.from.idx, "peer": toIdx, "from": in.FromRound, "ok": ok, "silent": hole})
 	if hole {
 		// half-open connection: the stream is accepted but nothing ever arrives on it
@@ -1017,6 +1050,13 @@ func (r *vnRun) exec(st vnStep) {
 		vn.settle()
 	case "reshare":
 		vn.reshare(st)
+	case "corrupt": // these members answer sync requests with forged streams from now on
+		vn.mu.Lock()
+		for _, i := range st.Nodes {
+			vn.nodes[i].corrupt = true
+		}
+		vn.mu.Unlock()
+		vn.tr.Emit("Note", vlib.E{"what": "corrupt", "nodes": st.Nodes})
 	case "expect": // heads predicted by the TLC behaviour vs observed heads
 		vn.settle()
 		obs := make([]int64, len(vn.nodes))
